@@ -79,7 +79,7 @@ func TestZZC15Histories(t *testing.T) {
 		lanes := lanes
 		sub := fmt.Sprintf("k12/lanes=%d", lanes)
 		t.Run(sub, func(t *testing.T) {
-			vlib.Check(t, vlib.N(330, 2600), func(t *rapid.T) {
+			vlib.Check(t, vlib.N(330, 2000), func(t *rapid.T) {
 				var n int
 				switch rapid.IntRange(0, 3).Draw(t, "ctxkind") {
 				case 0:
